@@ -89,6 +89,27 @@ def run(ctx):
                                  % (t1, time0, cttl, max_ttl, d["error_num"], d["error_str"], d["ttl"], want, wttl),
                           "max_ttl": max_ttl, "req_ttl": req_ttl, "time0": time0, "t1": t1,
                           "finding_key": ("F-C06-wrap-low" if time0 < cttl else "F-C06-wrap-high" if time0 + cttl >= M32 else None)})
+        if want in (15, 16):
+            # the verdict on a credential outside its window depends on (encode time, ttl, t) only: asking again gives the
+            # same answer (an out-of-window attempt leaves no trace), and a later in-window attempt is the FIRST decode
+            d2, m2, diff2 = cr.decode_both(r["data"])
+            if diff2:
+                mism.append(cr.mismatches[-1])
+            if d2 is None or d2["error_num"] != want:
+                fails.append({"why": "decode at t1=%d of a credential encoded at time0=%d with ttl=%d under --max-ttl=%d: "
+                                     "daemon says error %s when asked a second time at the same t, property says error %d again"
+                                     % (t1, time0, cttl, max_ttl, d2 and d2["error_num"], want),
+                              "max_ttl": max_ttl, "req_ttl": req_ttl, "time0": time0, "t1": t1, "second": True})
+            if time0 < M32 - 4000 and time0 > 4000:
+                cr.set_clock(time0)
+                d3, m3, diff3 = cr.decode_both(r["data"])
+                if diff3:
+                    mism.append(cr.mismatches[-1])
+                if d3 is None or d3["error_num"] != 0:
+                    fails.append({"why": "decode at t1=%d of a credential encoded at time0=%d with ttl=%d under --max-ttl=%d: after being "
+                                         "refused outside its window at t=%d the credential gives error %s inside it, property says error 0"
+                                         % (time0, time0, cttl, max_ttl, t1, d3 and d3["error_num"]),
+                                  "max_ttl": max_ttl, "req_ttl": req_ttl, "time0": time0, "t1": t1, "third": True})
         if len(ctx.cov["samples"]) < 8 and kind != "random":
             ctx.sample({"max_ttl": max_ttl, "req_ttl": req_ttl, "time0": time0, "t1": t1, "daemon_error": d["error_num"],
                         "expected": want})
